@@ -31,9 +31,34 @@ SvEvent(e) ==
      ELSE /\ e.pep.ok => /\ GreedyAccepts(e.pep.s) /\ NormalOf(e.pep.s) = e.pep.s
                          /\ e.pep2.ok /\ e.pep2.s = e.pep.s
           /\ e.ss.ok => S!IsSemVer(e.ss.s)
-EventOk(e) == CASE e.k = "pep" -> PepEvent(e) [] e.k = "sv" -> SvEvent(e) [] OTHER -> FALSE
+\* ---- format auto-detection (beyond the listed properties; reported as a deviation) ----
+\* `-f auto` / `check` without --format: SemVer is tried first, then PEP 440; `check` reports
+\* every format that accepts, PEP 440 first, with the normal form when it differs from the input.
+TVersion == <<86,101,114,115,105,111,110,58,32>>                                             \* "Version: "
+TPep     == <<10003,32,86,97,108,105,100,32,80,69,80,52,52,48,32,102,111,114,109,97,116>>       \* "(check mark) Valid PEP440 format"
+TSv      == <<10003,32,86,97,108,105,100,32,83,101,109,86,101,114,32,102,111,114,109,97,116>>   \* "(check mark) Valid SemVer format"
+TNorm    == <<32,40,110,111,114,109,97,108,105,122,101,100,58,32>>                            \* " (normalized: "
+Verdict(head, s, n) == IF n = s THEN head ELSE head \o TNorm \o n \o <<41>>
+\* a string whose numbers cannot be represented may be rejected by a parser: the recorded explicit
+\* verdict decides then, the grammar otherwise
+IsSv(e)  == IF ~S!IsSemVer(e.s) THEN FALSE ELSE IF S!CoreFits(e.s) THEN TRUE ELSE e.chk_sv.ok
+IsPep(e) == IF ~GreedyAccepts(e.s) THEN FALSE ELSE IF AllFitU32(Greedy(e.s)) THEN TRUE ELSE e.chk_pp.ok
+Failed(r) == ~r.ok /\ ~r.panic
+AutoEvent(e) ==
+  /\ NoPanic(e, {"au_sv", "au_pp", "sv_sv", "sv_pp", "pp_sv", "pp_pp", "chk", "chk_sv", "chk_pp"})
+  /\ e.chk_sv.ok = IsSv(e) /\ e.chk_pp.ok = IsPep(e)
+  /\ IF IsSv(e) THEN e.au_sv = e.sv_sv /\ e.au_pp = e.sv_pp
+     ELSE IF IsPep(e) THEN e.au_sv = e.pp_sv /\ e.au_pp = e.pp_pp
+     ELSE Failed(e.au_sv) /\ Failed(e.au_pp)
+  /\ e.chk.ok = (IsSv(e) \/ IsPep(e))
+  /\ e.chk.ok => e.chk.lines = <<TVersion \o e.s>>
+                    \o (IF IsPep(e) THEN <<Verdict(TPep, e.s, NormalOf(e.s))>> ELSE <<>>)
+                    \o (IF IsSv(e) THEN <<Verdict(TSv, e.s, S!StripV(e.s))>> ELSE <<>>)
+  /\ e.chk_sv.ok => e.chk_sv.lines = <<TVersion \o e.s, Verdict(TSv, e.s, S!StripV(e.s))>>
+  /\ e.chk_pp.ok => e.chk_pp.lines = <<TVersion \o e.s, Verdict(TPep, e.s, NormalOf(e.s))>>
+EventOk(e) == CASE e.k = "pep" -> PepEvent(e) [] e.k = "sv" -> SvEvent(e) [] e.k = "auto" -> AutoEvent(e) [] OTHER -> FALSE
 Next == /\ l <= Len(Rec)
-        /\ IF EventOk(Rec[l]) THEN TRUE ELSE PrintT("MISMATCH " \o ToString(l))
+        /\ IF EventOk(Rec[l]) THEN TRUE ELSE PrintT("MISMATCH " \o ToString(l) \o " " \o Rec[l].k)
         /\ l' = l + 1
 Spec == Init /\ [][Next]_l
 AllConsumed == IF TLCGet("stats").diameter = Len(Rec) + 1 THEN TRUE
